@@ -6,141 +6,16 @@ use std::collections::HashMap;
 use std::borrow::Borrow;
 use std::hash::Hash;
 verus! {
-// ---------------------------------------------------------------- trusted prelude
-pub struct Regex;               // external type (regex crate), never inspected by the units
+//@include specs/tok.rs
 pub struct BPETokenizerConfig;  // configuration record, never inspected by the units
-
-pub assume_specification<T: Copy>[ Option::<&T>::copied ](o: Option<&T>) -> (r: Option<T>)
-    ensures r == match o { Some(x) => Some(*x), None => None };
-
-//@unit src/tokenization.rs trait ToBytes
-pub trait ToBytes {
-    fn to_bytes(&self) -> Vec<u8>;
-}
-//@end
-
-/// UTF-8 bytes of an owned string (the meaning of `String::as_bytes`)
-pub open spec fn string_bytes(s: String) -> Seq<u8> { s@.as_bytes_spec() }
-pub uninterp spec fn chars_utf8(s: Seq<char>) -> Seq<u8>;
-pub trait VtBytesSpec { spec fn as_bytes_spec(self) -> Seq<u8>; }
-impl VtBytesSpec for Seq<char> { open spec fn as_bytes_spec(self) -> Seq<u8> { chars_utf8(self) } }
-
-impl ToBytes for String {
-    // real body: `self.as_bytes().to_vec()`
-    #[verifier::external_body]
-    fn to_bytes(&self) -> (r: Vec<u8>)
-        ensures r@ == string_bytes(*self)
-    {
-        self.as_bytes().to_vec()
-    }
-}
-
-// `&str` bytes: vstd's `spec_bytes` is the UTF-8 encoding of the view; tie it to chars_utf8
-#[verifier::external_body]
-pub proof fn axiom_str_bytes(s: &str)
-    ensures s.spec_bytes() == chars_utf8(s@)
-{}
-
-// UTF-8 encoding is injective; a String is determined by its characters
-#[verifier::external_body]
-pub proof fn axiom_utf8_injective(a: Seq<char>, b: Seq<char>)
-    ensures chars_utf8(a) == chars_utf8(b) ==> a == b
-{}
-#[verifier::external_body]
-pub proof fn axiom_string_ext(a: String, b: String)
-    ensures a@ == b@ ==> a == b
-{}
-
-// lookups through `Borrow`: HashMap<String,_>::get(&str) and HashMap<Vec<u8>,_>::get(&[u8])
-#[verifier::external_body]
-pub proof fn axiom_borrow_string_str(m: Map<String, u32>, k: &str)
-    ensures
-        contains_borrowed_key(m, k) <==> exists|key: String| key@ == k@ && #[trigger] m.contains_key(key),
-        forall|v: u32| maps_borrowed_key_to_value(m, k, v) <==> exists|key: String| key@ == k@ && #[trigger] m.contains_key(key) && m[key] == v,
-{}
-#[verifier::external_body]
-pub proof fn axiom_borrow_vec_slice(m: Map<Vec<u8>, u32>, k: &[u8])
-    ensures
-        contains_borrowed_key(m, k) <==> exists|key: Vec<u8>| key@ == k@ && #[trigger] m.contains_key(key),
-        forall|v: u32| maps_borrowed_key_to_value(m, k, v) <==> exists|key: Vec<u8>| key@ == k@ && #[trigger] m.contains_key(key) && m[key] == v,
-{}
 
 //@unit src/tokenization.rs type MergeOps
 pub type MergeOps = HashMap<Vec<u8>, u32>;
 //@end
 
-//@unit src/tokenization.rs struct Vocab
-pub struct Vocab<Token> {
-    vocab: HashMap<Token, u32>,
-    reverse_vocab: HashMap<u32, Token>,
-}
-//@end
-
-//@unit src/tokenization.rs struct BaseTokenizer
-pub struct BaseTokenizer<Config = (), State = ()> {
-    prefix_token_ids: Vec<u32>,
-    suffix_token_ids: Vec<u32>,
-    pad_token_id: u32,
-    state: State,
-    config: Config,
-    special_vocab: Vocab<String>,
-    special_token_pattern: Option<Regex>,
-}
-//@end
-
 //@unit src/tokenization.rs type BPETokenizer
 pub type BPETokenizer = BaseTokenizer<BPETokenizerConfig, (MergeOps, Vec<Vec<u8>>, Regex)>;
 //@end
-
-impl<Token> Vocab<Token> {
-    pub closed spec fn fwd(&self) -> Map<Token, u32> { self.vocab@ }
-    pub closed spec fn rev(&self) -> Map<u32, Token> { self.reverse_vocab@ }
-    /// the two maps are mutually inverse (established by `Vocab::build`, assumed)
-    pub open spec fn inverse(&self) -> bool {
-        &&& forall|t: Token| #[trigger] self.fwd().contains_key(t) ==> self.rev().contains_key(self.fwd()[t]) && self.rev()[self.fwd()[t]] == t
-        &&& forall|id: u32| #[trigger] self.rev().contains_key(id) ==> self.fwd().contains_key(self.rev()[id]) && self.fwd()[self.rev()[id]] == id
-    }
-}
-
-impl<Token> Vocab<Token>
-where
-    Token: PartialEq + Eq + Hash + Clone,
-{
-//@unit src/tokenization.rs fn len impl=^impl<Token>Vocab<Token>where\sToken:PartialEq\+Eq\+Hash\+Clone,$
-    fn len(&self) -> (r: usize)
-        requires obeys_key_model::<Token>(),
-        ensures r == self.fwd().len(),
-    {
-        self.vocab.len()
-    }
-//@end
-
-//@unit src/tokenization.rs fn token_to_id impl=^impl<Token>Vocab<Token>where\sToken:PartialEq\+Eq\+Hash\+Clone,$
-    fn token_to_id<K>(&self, token: &K) -> (r: Option<u32>)
-    where
-        K: Hash + Eq + ?Sized,
-        Token: Borrow<K>,
-        requires obeys_key_model::<Token>(),
-        ensures (match r {
-            Some(id) => maps_borrowed_key_to_value(self.fwd(), token, id),
-            None => !contains_borrowed_key(self.fwd(), token),
-        }),
-    {
-        self.vocab.get(token).copied()
-    }
-//@end
-
-//@unit src/tokenization.rs fn id_to_token impl=^impl<Token>Vocab<Token>where\sToken:PartialEq\+Eq\+Hash\+Clone,$
-    fn id_to_token(&self, id: &u32) -> (r: Option<&Token>)
-        ensures (match r {
-            Some(t) => self.rev().contains_key(*id) && *t == self.rev()[*id],
-            None => !self.rev().contains_key(*id),
-        }),
-    {
-        self.reverse_vocab.get(id)
-    }
-//@end
-}
 
 // ---------------------------------------------------------------- specification (from the property statement)
 impl BPETokenizer {
@@ -204,7 +79,7 @@ impl BPETokenizer {
         } else if id < u32::try_from(self.state.1.len()).ok()? {
             Some(self.state.1[usize::try_from(id).ok()?].clone())
         } else {
-            self.special_vocab.id_to_token(&id).map(|s: &String| -> (q: Vec<u8>) ensures q@ == string_bytes(*s) { s.to_bytes() })
+            self.special_vocab.id_to_token(&id).map(|s: &String| -> (q: Vec<u8>) ensures q@ == string_bytes(*s) { proof { axiom_string_tok_bytes(*s); } s.to_bytes() })
         }
     }
 //@end
